@@ -6,7 +6,10 @@
 //!   malformed  violates the precondition (double attachment, duplicates, dead ids, non-children): the model must
 //!              predict the exact resulting state or `panic`. No theorem is claimed there.
 //!   badrange   like main, then one out-of-range `remove_children_range` (known C03 finding): both sides must say `panic`.
-//! After a `panic` answer the tree may be torn, so the case ends there.
+//!   torn       fixed cases that go on AFTER a panic: the model's torn state at the panic site (what each method had already written
+//!              when it panicked, the `Drain` guard of remove_children_range, `remove`'s mark_dirty(parent) site on a dangling
+//!              parent) is compared with what the real tree holds afterwards.
+//! After a `panic` answer the tree may be torn, so (in every other stream) the case ends there.
 use crate::common::*;
 use std::panic::{catch_unwind, AssertUnwindSafe};
 use taffy::prelude::*;
@@ -544,7 +547,7 @@ fn run_fixed(out: &mut Out, label: &str, ops: &[Op]) {
     out.qa(&format!("stream {label}"), "ok");
     out.nontrivial();
     for op in ops {
-        if !finish_op(&mut s, out, op, label.starts_with("main")) {
+        if !finish_op(&mut s, out, op, label.starts_with("main")) && !label.starts_with("torn") {
             break;
         }
     }
@@ -635,6 +638,15 @@ pub fn run(cfg: &Cfg, out: &mut Out) -> String {
         // known C03 finding: out-of-range remove_children_range panics
         ("badrange", vec![NewLeaf, NewLeaf, NewLeaf, AddChild(0, 1), AddChild(0, 2), RemoveRange(0, 1, 5)]),
         ("badrange", vec![NewLeaf, NewLeaf, AddChild(0, 1), RemoveRange(0, 1, 0)]),
+        // torn: add_child(dead, b) panics after parents[b] = Some(dead); remove(b) then panics in mark_dirty(dead) and b stays
+        ("torn", vec![NewLeaf, NewLeaf, NewLeaf, Remove(2), AddChild(2, 1), Parent(1), Remove(1), Count, Children(1)]),
+        // torn: a dead id in a child list (double attachment, then removal); remove_children_range panics on it in the loop and the
+        // Drain guard still removes the whole range; the second child keeps its parent
+        ("torn", vec![NewLeaf, NewLeaf, NewLeaf, NewLeaf, AddChild(0, 2), AddChild(1, 2), AddChild(0, 3), Remove(2), RemoveRange(0, 0, 2), Children(0), Parent(3), RemoveRange(0, 0, 0)]),
+        // torn: new_with_children(dead) has inserted into `nodes` when it panics: the three maps leave lock-step
+        ("torn", vec![NewLeaf, NewLeaf, Remove(1), NewWithChildren(vec![1]), Count, NewLeaf, Count, Children(2), Parent(2), AddChild(0, 2), Remove(2), Count]),
+        // torn: set_children with a dead new child: the old children are already detached, the list is not replaced
+        ("torn", vec![NewLeaf, NewLeaf, NewLeaf, AddChild(0, 1), Remove(2), SetChildren(0, vec![2]), Children(0), Parent(1), SetChildren(0, vec![1]), Children(0)]),
     ];
     for (label, ops) in &fixed {
         if cfg.wants(idx) {
